@@ -153,7 +153,7 @@ PROPS['C11'] = dict(
 )
 PROPS['C17'] = dict(
   level='proof',
-  verus=[dict(unit='module', min_functions=7), dict(unit='imports', min_functions=3), dict(unit='ops', min_functions=3), dict(unit='importpath', min_functions=1)],
+  verus=[dict(unit='module', min_functions=7), dict(unit='imports', min_functions=3), dict(unit='ops', min_functions=3), dict(unit='importpath', min_functions=1), dict(unit='findmod', min_functions=1)],
   not_decided=['once-only execution of a module body needs import_module / load_missing_module (file system, PathBuf, compile) which are NOT under contract: the handlers are proved against an uninterpreted loader answer',
                'import path resolution (full_import_path string building: two paths must not collide), module_instance construction, the package tree',
                'A-std: hashbrown map/set behave as mathematical map/set (stubs in vx/units/module/prelude.rs)'],
